@@ -29,9 +29,11 @@ const (
 	SdNoIP                     // valid, sender has no IP (nil)
 	SdZeroIP                   // valid, sender 0.0.0.0:1068
 	SdOdd                      // decodable but unusual: hlen 200 (v4) / unknown message type (v6)
+	SdFull                     // as validA, padded to exactly the 4096 bytes the servers read at a time
+	SdBig                      // as validA, 1500 bytes
 )
 
-var sdNames = [...]string{"validA", "validB", "garbage", "empty", "noip", "zeroip", "odd"}
+var sdNames = [...]string{"validA", "validB", "garbage", "empty", "noip", "zeroip", "odd", "full4096", "big1500"}
 
 type ServerScenario struct {
 	Name     string
@@ -123,6 +125,12 @@ func srvDatagram(v6 bool, k SrvDgKind, serial int) ([]byte, net.Addr) {
 			p.UpdateOption(dhcpv4.OptDomainSearch(&rfc1035label.Labels{Labels: []string{tagS + ".example.org"}}))
 			p.UpdateOption(dhcpv4.OptGeneric(dhcpv4.GenericOptionCode(231), bytes.Repeat([]byte(tagS), 50))) // 350 bytes: travels as two instances
 		}
+		if k == SdFull || k == SdBig {
+			want := map[SrvDgKind]int{SdFull: 4096, SdBig: 1500}[k]
+			for f := 0; f <= want && len(p.ToBytes()) < want; f++ {
+				p.UpdateOption(dhcpv4.OptGeneric(dhcpv4.GenericOptionCode(225), bytes.Repeat([]byte{0x60 + byte(serial)}, f)))
+			}
+		}
 		b := p.ToBytes()
 		if k == SdOdd {
 			b[2] = 200 // hardware address length beyond the 16-byte field
@@ -134,6 +142,10 @@ func srvDatagram(v6 bool, k SrvDgKind, serial int) ([]byte, net.Addr) {
 	m.AddOption(&dhcpv6.OptionGeneric{OptionCode: dhcpv6.OptionCode(serialOpt6), OptionData: tag})
 	if k == SdOdd {
 		m.MessageType = dhcpv6.MessageType(200)
+	}
+	if k == SdFull || k == SdBig {
+		want := map[SrvDgKind]int{SdFull: 4096, SdBig: 1500}[k]
+		m.AddOption(&dhcpv6.OptionGeneric{OptionCode: 65002, OptionData: bytes.Repeat([]byte{0x60 + byte(serial)}, want-len(m.ToBytes())-4)})
 	}
 	if k == SdValidB {
 		m.MessageType = dhcpv6.MessageTypeRequest
@@ -547,6 +559,12 @@ func c14Scenarios(tier string) []Scenario {
 			// nothing ends the server: it must keep serving
 			if n > 0 && n <= 2 {
 				add(&ServerScenario{V6: v6, Dgs: seq, EndErrAt: -1, CloseAt: -1, Handler: 1, Bound: bound}, "keeps-serving")
+			}
+		}
+		// datagram sizes: a datagram that exactly fills the servers' 4096-byte read is still a datagram
+		for _, seq := range [][]SrvDgKind{{SdFull}, {SdBig}, {SdFull, SdValidA}, {SdValidB, SdFull}, {SdBig, SdFull, SdBig}} {
+			for h := 0; h < 3; h++ {
+				add(&ServerScenario{V6: v6, Dgs: seq, EndErrAt: len(seq), CloseAt: -1, Handler: h, Bound: 1}, "datagram-sizes")
 			}
 		}
 		// deterministic long sequences under the default schedule
